@@ -47,9 +47,23 @@ func vfBindable(proto, addr string, within time.Duration) error {
 }
 
 func TestVfC18RunReleases(t *testing.T) {
-	st := vfkit.Stats("TestVfC18RunReleases", "in-process run() with 1-6 listeners of generated kinds and an optional metrics endpoint, where listener i cannot start (address held by the harness, bad certificate material of 4 kinds, unknown protocol), or an upstream / domain set / rule is broken, or nothing fails; oracles: a failed start returns an error (no panic) within 3 s and every address of the listeners before i (and of listener i itself unless the harness holds it) and of the metrics endpoint can be bound again within 1 s; a successful start followed by close() (twice) releases every address within 1 s; non-trivial = failing listener is not the first, or the close case")
+	st := vfkit.Stats("TestVfC18RunReleases", "in-process run() with 1-6 listeners of generated kinds and an optional metrics endpoint, where listener i cannot start (address held by the harness, bad certificate material of 4 kinds, unknown protocol), or an upstream / domain set / rule / the cache's ip-marker file is broken, or nothing fails; in one case of three with a second-level cache server of the harness's own; oracles: a failed start returns an error (no panic) within 3 s and every address of the listeners before i (and of listener i itself unless the harness holds it) and of the metrics endpoint can be bound again within 1 s; a successful start followed by close() (twice) releases every address within 1 s; in all three outcomes the connection to the second-level cache server is closed within 2 s; non-trivial = failing listener is not the first, or the close case")
 	defer vfkit.Flush()
 	kinds := []string{"udp", "tcp", "gnet", "tls", "http", "fasthttp", "https", "quic"}
+	// a second-level cache server of the harness's own (kit/fakeredis.go): the client connection run() opens to it is
+	// one more thing that a failed start-up and close() have to release
+	store, err := vfkit.StartFakeRedis("127.0.0.1")
+	if err != nil {
+		t.Fatal(err)
+	}
+	defer store.Close()
+	storeReleased := func(when string) {
+		for until := time.Now().Add(2 * time.Second); store.OpenConns() > 0; time.Sleep(5 * time.Millisecond) {
+			if time.Now().After(until) {
+				t.Fatalf("%d connection(s) to the second-level cache server are still open 2 s after %s", store.OpenConns(), when)
+			}
+		}
+	}
 	rapid.Check(t, func(t *rapid.T) {
 		seq := vfC18Seq.Add(1)
 		ip := fmt.Sprintf("127.%d.%d.1", 200+(uint32(os.Getpid())+seq/250)%50, seq%250+1)
@@ -71,6 +85,10 @@ func TestVfC18RunReleases(t *testing.T) {
 			addrs = append(addrs, la{proto, sc.Listen, k})
 		}
 		failIdx := rapid.IntRange(-1, n-1).Draw(t, "failIdx")
+		withStore := rapid.IntRange(0, 2).Draw(t, "secondLevelCache") == 0
+		if withStore {
+			cfg.Cache.Redis = store.URL()
+		}
 		// things run() opens before the listeners: the metrics endpoint (a listening socket of its own) ...
 		if rapid.Bool().Draw(t, "metricsEndpoint") {
 			cfg.Metrics.Addr = fmt.Sprintf("%s:%d", ip, 7100)
@@ -78,8 +96,11 @@ func TestVfC18RunReleases(t *testing.T) {
 		// ... and start-up can also fail in a later stage that opens nothing itself, with the metrics endpoint already up
 		failStage := "listener"
 		if failIdx < 0 {
-			failStage = rapid.SampledFrom([]string{"none", "none", "upstream", "domainset", "rule"}).Draw(t, "failStage")
+			failStage = rapid.SampledFrom([]string{"none", "none", "upstream", "domainset", "rule", "ipmarker"}).Draw(t, "failStage")
 			switch failStage {
+			case "ipmarker":
+				cfg.Cache.MemSize = 1 << 20
+				cfg.Cache.IpMarker = "/nonexistent/vf-c18-ip-marker.txt"
 			case "upstream":
 				cfg.Upstreams = append(cfg.Upstreams, UpstreamConfig{Tag: "bad", Addr: "bogus://127.0.0.1:1"})
 			case "domainset":
@@ -162,6 +183,7 @@ func TestVfC18RunReleases(t *testing.T) {
 				res.r.close(nil)
 				t.Fatalf("run() succeeded with a broken %s", failStage)
 			}
+			storeReleased("run() failed in stage " + failStage)
 			if cfg.Metrics.Addr != "" {
 				if err := vfBindable("tcp", cfg.Metrics.Addr, time.Second); err != nil {
 					t.Fatalf("the metrics endpoint %s is still bound 1 s after run() failed in stage %s: %v", cfg.Metrics.Addr, failStage, err)
@@ -172,6 +194,7 @@ func TestVfC18RunReleases(t *testing.T) {
 				res.r.close(nil)
 				t.Fatalf("run() succeeded although listener %d (%s) could not start: %s", failIdx, addrs[failIdx].addr, failWhy)
 			}
+			storeReleased(fmt.Sprintf("run() returned the error of listener %d", failIdx))
 			if cfg.Metrics.Addr != "" {
 				if err := vfBindable("tcp", cfg.Metrics.Addr, time.Second); err != nil {
 					t.Fatalf("the metrics endpoint %s is still bound 1 s after run() returned the error of listener %d: %v", cfg.Metrics.Addr, failIdx, err)
@@ -207,6 +230,7 @@ func TestVfC18RunReleases(t *testing.T) {
 			case <-time.After(5 * time.Second):
 				t.Fatalf("close() did not return within 5 s (listeners %v)", addrs)
 			}
+			storeReleased("close()")
 			for i := range addrs {
 				if err := vfBindable(addrs[i].proto, addrs[i].addr, time.Second); err != nil {
 					t.Fatalf("listener %d (%s %s) is still bound 1 s after close(): %v", i, addrs[i].kind, addrs[i].addr, err)
@@ -218,7 +242,7 @@ func TestVfC18RunReleases(t *testing.T) {
 				}
 			}
 		}
-		st.Case(vfkit.Fingerprint(fmt.Sprint(addrs), failIdx, failStage, cfg.Metrics.Addr), failIdx != 0, []string{fmt.Sprintf("fail=%v", failIdx >= 0 || failStage != "none"), "stage=" + failStage, "why=" + failWhy, "ctx=" + ctxMode, fmt.Sprintf("metrics=%v", cfg.Metrics.Addr != "")}, func() any {
+		st.Case(vfkit.Fingerprint(fmt.Sprint(addrs), failIdx, failStage, cfg.Metrics.Addr), failIdx != 0, []string{fmt.Sprintf("fail=%v", failIdx >= 0 || failStage != "none"), "stage=" + failStage, "why=" + failWhy, "ctx=" + ctxMode, fmt.Sprintf("metrics=%v", cfg.Metrics.Addr != ""), fmt.Sprintf("second-level-cache=%v", withStore)}, func() any {
 			return map[string]any{"listeners": fmt.Sprint(addrs), "failing_index": failIdx, "failing_stage": failStage, "metrics": cfg.Metrics.Addr}
 		})
 	})
